@@ -103,9 +103,17 @@ def run_one(case):
                 return Failure("reenable-hangs", case, st_, "enable() returns")
         if not rig.connect_peer():
             return Failure(f"reconnect-refused:{_where(case)}", case, f"{sim.blocked_report()} {sim.thread_errors[-2:]}", "new connection accepted")
-        if not rig.select_from_peer(system=0x7001):
+        try:
+            selected = rig.select_from_peer(system=0x7001)
+        except OSError as exc:
+            # the endpoint closed / reset the connection it had just accepted (or made): the peer cannot even send its select
+            return Failure(f"reselect-failed:{_where(case)}", case, f"new connection dropped by the endpoint ({type(exc).__name__}) {rig.state()} {sim.blocked_report()}", "SELECTED")
+        if not selected:
             return Failure(f"reselect-failed:{_where(case)}", case, f"{rig.state()} {sim.blocked_report()}", "SELECTED")
-        rig.feed(e37.data_frame(0, 1, 1, True, 0x7002))
+        try:
+            rig.feed(e37.data_frame(0, 1, 1, True, 0x7002))
+        except OSError as exc:
+            return Failure(f"message-after-reconnect-lost:{_where(case)}", case, f"new connection dropped by the endpoint ({type(exc).__name__})", "0x7002 delivered")
         sim.advance(1.0)
         new = rig.received[n_before:]
         # messages completely delivered before the cut may legitimately have been dispatched late; none may appear now
